@@ -54,6 +54,14 @@ def current_item_text(item):
     return text[s:e]
 
 
+def plain_item_text(item):
+    """current text of the item with attributes removed (T5) and cfg(feature) resolved (T10) - nothing inserted"""
+    import re as _re
+    cur = current_item_text(item)
+    ann, recs = rsx.apply(cur, cur, [], strip_attrs=True, cfg_features=item.features)
+    return _re.sub(r'/\*@<\d+\*/.*?/\*@>\*/', '', ann, flags=_re.S)
+
+
 def rebaseline(unit):
     for it in unit.items:
         p = pinned_path(unit, it)
